@@ -165,6 +165,9 @@ class WaveletOp(LinearOperator):
             coefficients_list = self._format_coeffs_2d(coeffs_2d)
         elif len(self._dim) == 3:
             coeffs_3d = wavedec3(x_real, self._wavelet_name, level=self._level, mode='zero', axes=(-3, -2, -1))
+            if len(coeffs_3d) == 1:
+                # no decomposition possible (level 0): ptwt returns the data with an additional leading dimension
+                coeffs_3d = [coeffs_3d[0].reshape(x_real.shape)]
             coefficients_list = self._format_coeffs_3d(coeffs_3d)
         else:
             raise ValueError(f'Wavelets are only available for 1D, 2D and 3D and not {self._dim}D')
